@@ -9,6 +9,7 @@ import (
 	"strconv"
 	"strings"
 
+	"github.com/getkin/kin-openapi/openapi3"
 	"github.com/getkin/kin-openapi/openapi3filter"
 	"github.com/getkin/kin-openapi/routers"
 
@@ -120,6 +121,76 @@ func runC08(c *core.Ctx) {
 			c08Content(c, ci)
 		}
 		idx++
+	}
+	if c.Mine(idx) {
+		c08EditedDocument(c)
+	}
+	idx++
+}
+
+// c08EditedDocument: a document the caller keeps and edits between validations (a header added to a response
+// definition, made required, its schema tightened, removed again; a content entry replaced). Every validation is decided
+// by the document as it is at that moment, exactly as a freshly loaded copy of that document decides it.
+func c08EditedDocument(c *core.Ctx) {
+	intHeader := func(required bool, max float64) *openapi3.HeaderRef {
+		h := &openapi3.Header{Parameter: openapi3.Parameter{Required: required, Schema: openapi3.NewSchemaRef("", openapi3.NewIntegerSchema().WithMax(max))}}
+		return &openapi3.HeaderRef{Value: h}
+	}
+	for _, multi := range []bool{false, true} {
+		responses := gen.S{"200": gen.S{"description": "d", "headers": gen.S{"X-A": gen.S{"required": true, "schema": gen.S{"type": "integer"}}},
+			"content": gen.S{"application/json": gen.S{"schema": gen.S{"type": "object"}}}}}
+		d, err := loadDoc(c08DocFor(responses))
+		if err != nil {
+			return
+		}
+		router, _ := newGorilla(d)
+		resp := d.Paths.Find("/r").Get.Responses.Value("200").Value
+		type step struct {
+			name string
+			edit func()
+			hdr  http.Header
+			body string
+			want bool
+		}
+		withA := http.Header{"Content-Type": []string{"application/json"}, "X-A": []string{"1"}}
+		withAB := func(b string) http.Header {
+			return http.Header{"Content-Type": []string{"application/json"}, "X-A": []string{"1"}, "X-B": []string{b}}
+		}
+		steps := []step{
+			{"as loaded", func() {}, withA, `{}`, true},
+			{"as loaded, again", func() {}, withA, `{}`, true},
+			{"required header X-B added", func() { resp.Headers["X-B"] = intHeader(true, 9) }, withA, `{}`, false},
+			{"required header X-B added, sent", func() {}, withAB("5"), `{}`, true},
+			{"X-B sent beyond its maximum", func() {}, withAB("50"), `{}`, false},
+			{"maximum of X-B raised", func() { resp.Headers["X-B"] = intHeader(true, 99) }, withAB("50"), `{}`, true},
+			{"X-B no longer required", func() { resp.Headers["X-B"].Value.Required = false }, withA, `{}`, true},
+			{"X-A removed from the definition", func() { delete(resp.Headers, "X-A") }, http.Header{"Content-Type": []string{"application/json"}}, `{}`, true},
+			{"second required header X-C added", func() { resp.Headers["X-C"] = intHeader(true, 9) }, http.Header{"Content-Type": []string{"application/json"}}, `{}`, false},
+			{"all headers removed", func() { resp.Headers = nil }, http.Header{"Content-Type": []string{"application/json"}}, `{}`, true},
+			{"body schema replaced", func() {
+				resp.Content["application/json"].Schema = openapi3.NewSchemaRef("", openapi3.NewStringSchema())
+			}, http.Header{"Content-Type": []string{"application/json"}}, `{}`, false},
+			{"body schema replaced, conforming body", func() {}, http.Header{"Content-Type": []string{"application/json"}}, `"s"`, true},
+		}
+		for i, st := range steps {
+			st.edit()
+			desc := fmt.Sprintf("edited document step %d (%s) MultiError=%v", i, st.name, multi)
+			c.Begin(desc)
+			c.Eval()
+			oo := openapi3filter.Options{MultiError: multi}
+			verr, _, _, pi := c08Run(router, "GET", 200, st.hdr, []byte(st.body), &oo)
+			w := c08Witness{Part: "edited-document", Status: 200, Method: "GET", Header: st.hdr, Body: st.body, Options: fmt.Sprint("MultiError=", multi), Got: core.Truncate(fmt.Sprint(verr), 200), Want: map[bool]string{true: "accept", false: "reject"}[st.want]}
+			if pi != nil {
+				c.Violate(core.PanicFeatures(pi), w, pi.Stack)
+				continue
+			}
+			c.Distinct(desc)
+			c.Cover("edited_document", st.name)
+			if (verr == nil) != st.want {
+				c.Violate(map[string]string{"kind": "verdict_of_an_earlier_state_of_the_document", "step": st.name, "options": fmt.Sprint("MultiError=", multi)}, w,
+					desc+"\nlibrary: "+fmt.Sprint(verr))
+			}
+		}
 	}
 }
 
@@ -462,6 +533,46 @@ func c08Content(c *core.Ctx, ci int) {
 					c.Violate(map[string]string{"kind": "content_verdict", "ct": cs.ct, "want": want, "options": o.name}, w, desc+"\nlibrary: "+fmt.Sprint(verr))
 				}
 				c08Readable(c, w, []byte(cs.body), after, rerr)
+			}
+		}
+		// a declared media type written with a parameter in capitals next to the bare type with another schema:
+		// a response sent with exactly the declared text is described by that entry
+		{
+			responses := gen.S{"200": gen.S{"description": "d", "content": gen.S{
+				"application/json; charset=UTF-8": gen.S{"schema": gen.S{"type": "object", "required": gen.Arr("k"), "properties": gen.S{"k": gen.S{"type": "integer"}}}},
+				"application/json":                gen.S{"schema": gen.S{"type": "string"}},
+				"text/csv; header=Present":        gen.S{"schema": gen.S{"type": "string", "minLength": 3.0}},
+			}}}
+			d, err := loadDoc(c08DocFor(responses))
+			if err != nil {
+				c.Note("content doc (capitals) rejected: %v", err)
+				return
+			}
+			router, _ := newGorilla(d)
+			for _, cs := range []struct{ ct, body, want string }{
+				{"application/json; charset=UTF-8", `{"k":1}`, "accept"}, {"application/json; charset=UTF-8", `"text"`, "reject"}, {"application/json; charset=UTF-8", `{"k":"s"}`, "reject"},
+				{"application/json", `"text"`, "accept"}, {"application/json", `{"k":1}`, "reject"},
+				{"text/csv; header=Present", "a,b\n1,2\n", "accept"}, {"text/csv; header=Present", "a", "reject"},
+			} {
+				for _, multi := range []bool{false, true} {
+					hdr := http.Header{"Content-Type": []string{cs.ct}}
+					desc := fmt.Sprintf("content declared with capitals ct=%q body=%s MultiError=%v", cs.ct, cs.body, multi)
+					c.Begin(desc)
+					c.Eval()
+					oo := openapi3filter.Options{MultiError: multi}
+					verr, after, rerr, pi := c08Run(router, "GET", 200, hdr, []byte(cs.body), &oo)
+					w := c08Witness{Part: "content", Status: 200, Method: "GET", Header: hdr, Body: cs.body, Options: fmt.Sprint("MultiError=", multi), Got: core.Truncate(fmt.Sprint(verr), 200), Want: cs.want}
+					if pi != nil {
+						c.Violate(core.PanicFeatures(pi), w, pi.Stack)
+						continue
+					}
+					c.Distinct(desc)
+					c.Cover("content", "declared-with-capitals/"+cs.want)
+					if (verr == nil) != (cs.want == "accept") {
+						c.Violate(map[string]string{"kind": "content_verdict", "ct": cs.ct, "want": cs.want, "options": fmt.Sprint("MultiError=", multi), "declared": "with-capitals"}, w, desc+"\nlibrary: "+fmt.Sprint(verr))
+					}
+					c08Readable(c, w, []byte(cs.body), after, rerr)
+				}
 			}
 		}
 	case 1, 2: // as-response reading of object schemas
